@@ -653,7 +653,7 @@ bool Interpret::getAssignment() const {
         first = false;
     }
     ss << ')';
-    notify_formatted(false, ss.str().c_str());
+    notify_formatted(false, "%s", ss.str().c_str());
     return true;
 }
 
